@@ -24,6 +24,15 @@ CHECKS = {
  "C14": dict(sec="6 C14", tech="TLC invariant WireClean on TCSync with undo points and populated deletes; every add_version body parsed as generic JSON with exact field sets and compared with the spec's outgoing list by TLC trace validation; versions served back re-rendered in other documented forms",
    text="The specification states what may be sent (ToSync: only stripped Create/Delete/Update) and TLC checks it on every stored version; on the code each version body is parsed independently of the crate's types (UTF-8, exact field sets, RFC 3339 Z timestamps) and compared with the specification's list; for the converse every pulled version is served in a different rendering of the documented format (key order, whitespace, \\u escapes, timestamp precision) and the replica's resulting state is validated.",
    note="Documented top-level shape per docs/src/sync-protocol.md as corrected by fix a71c422; renderings are value-preserving re-encodings, not arbitrary third-party documents."),
+ "C05": dict(sec="6 C05", tech="TLA+ spec TCReplica (documented operation model) + TLC enumeration of all short batches; every batch committed through Replica::commit_operations on both storages; TLC trace validation of the committed state; storage-call fault sweep",
+   text="The specification's Commit action is the documented operation model applied one operation at a time; TLC enumerates every batch of length <=2-3 over {create, delete, set, remove, undo point} x 2 tasks, valid or not, on every prior state, and each batch is committed on the real code (in-memory and SQLite); the committed tasks, recorded operations, working set and base version are validated against the specification, with ReplicaInvariant evaluated on every state; every storage call index of a commit is failed to check all-or-nothing.",
+   note="Batches bounded in length; with syncs in the history only valid batches are used (operational transformation presupposes valid operations, docs/src/storage.md)."),
+ "C07": dict(sec="6 C07", tech="TLC on TCReplica/TCSync undo actions with the property's clauses checked at every undo (MCReplica); behaviours incl. stale lists and syncs replayed on both storages; TLC trace validation incl. the next version sent",
+   text="TLC explores commits after undo points, fetching and committing reversals (fresh and stale lists), repeated undo and syncs; at every undo it checks: exact earlier content, exactly those operations withdrawn, success reported; stale list -> unchanged + false; nothing to undo after sync. The behaviours are replayed on the real code; results, states and the contents of later add_version requests are validated against the specification.",
+   note="Reversal of operations that were invalid when committed, and the boolean for a lone undo point, are modelled as implemented and not claimed."),
+ "C15": dict(sec="6 C15", tech="TLC over all task sets x status mixes x prior working sets x rebuild sequences with the property's clauses as a checked history predicate (MCReplica WInit); same cases replayed on both storages with prior working sets written through the StorageTxn API; TLC trace validation",
+   text="The specification models working_set::rebuild including the write-back through set_working_set_item/add_to_working_set; TLC checks the clauses (exactly the pending/recurring tasks once, position 0 empty, numbers stable without renumbering and newcomers after all numbers in use, 1..n in order with renumbering, commit appends) from every prior state; the cases are executed on the real code on both storages and each resulting working set is validated against the specification.",
+   note="Tasks <= 3, prior working sets <= 3 (thorough 4) entries in the exhaustive family; longer histories by simulation."),
 }
 
 def check(pid, c):
